@@ -326,10 +326,15 @@ def canon_schedules():
             pk += [k.send("A", "v1", [d]) for d in ("ok2", "fail2", "async1")]
         if v2:
             pk += [k.send("A", "v2", d, toT=150) for d in (["ok1", "ok2"], ["ok2", "fail1"], ["fail2"], ["async1"], ["ok"])]
+            rejected = [k.send("A", "v2", d, toT=150) for d in (["async1", "fail1"], ["ok1", "async", "fail"], ["ok1", "oksent"], ["oksent"])]
+        else:
+            rejected = []
         ph = k.sync("B")
         if kind == "ORDERED":
             k.relay("Recv", "B", pk[1], ph)                  # successor first: must be rejected
         for p in pk:
+            k.relay("Recv", "B", p, ph)
+        for p in rejected:                                   # receives the v2 handler must refuse as a whole
             k.relay("Recv", "B", p, ph)
         k.relay("Recv", "B", pk[0], ph)                      # duplicate relay
         bad = dict(pk[0], data=["fail"] + pk[0]["data"][1:])
